@@ -221,6 +221,13 @@ static void program(Rng& r) {
     size_t a = r.below(alive.size()), b = r.below(alive.size());
     if (a == b) continue;
     size_t ia = alive[a], ib = alive[b];
+    if (r.chance(0.15) && md[ia].pts.size() < 4000) {   // a sketch merged with itself stands for its stream twice
+      auto& self = *sk[ia];
+      self.merge(self);
+      const auto twice = md[ia].pts; md[ia].pts.insert(md[ia].pts.end(), twice.begin(), twice.end()); md[ia].n *= 2;
+      observe(*sk[ia], md[ia], r, "self-merge", ks[ia], dim, kern);
+      count(md[ia].n ? "self_merge_nonempty" : "self_merge_empty");
+    }
     const bool both_exact = !sk[ia]->is_estimation_mode() && !sk[ib]->is_estimation_mode();
     if (r.coin()) { sk[ia]->merge(*sk[ib]); count("merge_lvalue"); observe(*sk[ib], md[ib], r, "merge-source-unchanged", ks[ib], dim, kern); }
     else { sk[ia]->merge(std::move(*sk[ib])); count("merge_rvalue"); }
